@@ -976,12 +976,58 @@ func ModelInput(res *Result) string {
 		mode += "m"
 	}
 	mode += "/" + c.cbBits()
-	pre := linksField(g)
+	pre := linksField(g) + prologueField(res)
 	if c.PreTag >= 0 && (c.Mode == "t" || c.Mode == "r") {
 		pre += fmt.Sprintf("pt=%d ", c.PreTag)
 	}
 	return fmt.Sprintf("%d %d %s %s %s %s %s %s %s%srp=%s:%d:%d:%d", len(g.Nodes), c.K, mode, rootField, ints(cached0),
 		strings.Join(nodes, ";"), ints(d0), tr, platformField(c, g), pre, c.Stream, c.GenSeed, b2i(c.Thorough), c.Seed)
+}
+
+// prologueField renders Copy's prologue for the in-Coq check of CopyTop.prologue_fetches /
+// cache_after_resolve: pr=<reffetch>:<root0>:<mapped>:<target kind n|l|i|o>:<config node|->:<config type ok>:
+// <root0 is manifest>:<root0 is empty>:<observed prologue reads, '+'-separated>
+func prologueField(res *Result) string {
+	c, g := res.Case, res.G
+	if c.Mode != "t" && c.Mode != "r" {
+		return ""
+	}
+	mapped := c.Root
+	if c.MapRoot >= 0 {
+		mapped = c.MapRoot
+	}
+	kind, cfg, ok := "n", "-", 0
+	if c.Platform != "" {
+		n := g.Nodes[mapped]
+		switch n.Kind {
+		case dag.KIndex, dag.KDockerL:
+			kind = "l"
+		case dag.KImage, dag.KDocker:
+			kind = "i"
+			cn := g.Nodes[n.Succ[0]]
+			if n.Subject >= 0 {
+				cn = g.Nodes[n.Succ[1]]
+			}
+			cfg = fmt.Sprint(cn.ID)
+			want := ocispec.MediaTypeImageConfig
+			if n.Kind == dag.KDocker {
+				want = dag.MTDockerConfig
+			}
+			ok = b2i(cn.Desc.MediaType == want)
+		default:
+			kind = "o"
+		}
+	}
+	obs := make([]string, len(res.Pro))
+	for i, x := range res.Pro {
+		obs[i] = fmt.Sprint(x)
+	}
+	o := strings.Join(obs, "+")
+	if o == "" {
+		o = "-"
+	}
+	r0 := g.Nodes[c.Root]
+	return fmt.Sprintf("pr=%d:%d:%d:%s:%s:%d:%d:%d:%s ", b2i(c.RefFetch), c.Root, mapped, kind, cfg, ok, b2i(r0.IsManifest()), b2i(len(r0.Bytes) == 0), o)
 }
 
 // mtConst names a media type by the Go constant the code switches on ("-" = any other media type).
